@@ -810,3 +810,11 @@ def check_policy_push(rep, fl, pb):
     ss = send_sites(pb)
     ok = len(ss) >= 1 and all(ch == norm(F(V("self"), "items_tx")) and pay == keys for _, _, ch, pay in ss)
     rep.check(ok, "R15.3", fl, pb, "send(keys)", "the batch is sent on items_tx", "push does not send its batch on items_tx")
+
+
+def check_C16_keys(rep, fl):
+    """Only the key-plumbing instances (R18.3) of the C16 walk over Cache::try_update."""
+    from framework import Report
+    tmp = Report(rep.prop, rep.tier)
+    check_C16(tmp, fl)
+    rep.instances.extend(i for i in tmp.instances if i.rule == "R18.3")
